@@ -18,14 +18,14 @@ from .c11 import dump_obj, show
 ID = 'C17'
 
 BOUNDS = {
-    'quick': dict(DEPTH=2, DEEP=3, KINDS=['dict', 'lru1', 'evict', 'warm-eval']),
-    'thorough': dict(DEPTH=3, DEEP=4, KINDS=['dict', 'lru1', 'lru2', 'evict', 'refuse-long', 'warm-parse', 'warm-eval']),
+    'quick': dict(DEPTH=1, DEEP=3, KINDS=['dict', 'lru1', 'evict', 'warm-eval']),
+    'thorough': dict(DEPTH=2, DEEP=4, KINDS=['dict', 'lru1', 'lru2', 'evict', 'refuse-long', 'warm-parse', 'warm-eval']),
 }
 
 SOURCES = ['1', ' 1', '1 ', '\n1', '1\n', '\f1', '1\f', '[1, 2]', '{"a": [1]}', '{"a": {"b": 1}}', 'x = [1]; x', 'f = v => [v]; f(1)',
            '1 +', 'u', 'map(l, v => v + k)', '[[1], {"c": [2]}]', 'x = {"a": {"b": [1]}}; x["a"]', 'l', 'push(l, 3); l',
            'r = []; push(r, [0]); r', 'k if k else [k]',
-           'k\n-1', 'k -1', 'len(l)\n[2]', 'len(l) [2]', 'k == "a  b"', 'k == "a b"', '\n\nx = = 1', 'x = = 1', 'x = 1\nk', 'x = 1 k', ' [1,\n 2] ', '[1, 2]\n']
+           'k\n-1', 'k -1', 'len(l)\n[2]', 'len(l) [2]', 'k == "a  b"', 'k == "a b"', '\n\nx = = 1', 'x = = 1', 'x = 1\nk', 'x = 1 k', ' [1,\n 2] ', '[1, 2]\n', 'len([1, 2 3', 'x = 10\ny = 2\nx * y', 'k(', '{"a": [1,\n2 3]}', 'fa(10)']
 WARM = ['1', '{"a": {"b": 1}}', 'map(l, v => v + k)', 'f = v => [v]; f(1)', '[[1], {"c": [2]}]']
 
 
@@ -136,6 +136,9 @@ def actions():
     for s in ('map(l, v => v + k)', '{"a": {"b": 1}}', 'f = v => [v]; f(1)', '[[1], {"c": [2]}]'):
         for bud in (6, 9, 14):
             acts.append(('eval', s, 'P', bud))
+    for src in ('fa(10)', 'fa(1) + k'):
+        for variant in ('inc', 'dbl', None):
+            acts.append(('eval-ast', src, 'P', variant))
     acts.append(('mutate-last',))
     acts.append(('set-k',))
     return acts
@@ -185,6 +188,16 @@ class World:
                 r = self.p.eval(act[1], names, **kw)
                 self.last = r
                 return ('ok', show(r), show(names))
+            if kind == 'eval-ast':
+                api = snapshot.api()
+                ops = api.ast_ops
+                ast_names = None
+                if act[3] is not None:
+                    body = 'v + 1' if act[3] == 'inc' else 'v * 2'
+                    ast_names = {'fa': ops.LambdaOp(args=[ops.NameOp('v')], expr=clone.pristine(template()).parse(body))}
+                r = self.p.eval(act[1], self.P, ast_names=ast_names)
+                self.last = r
+                return ('ok', show(r), show(self.P))
             if kind == 'mutate-last':
                 deep_mutate(self.last)
                 return ('ok', show(self.last))
@@ -231,25 +244,49 @@ def run_history(res, kind, hist):
                 res.violation(f'tree-mutated:{kind}:{act[0]}:{_src(act)}', 'a cached tree was altered after its insertion',
                               dict(w, key=k, expected=rec.dumps.get(k, '')[:200], observed=repr(dump_obj(tree))[:200]))
                 return None, False
-    st = repr((sorted(rec.dumps.items()), sorted(repr(k) for k in rec.inner), show(A.P), show(A.last)))
+    st = repr((sorted(rec.dumps.items()), sorted(repr(k) for k in rec.inner), show(A.P), show(A.last), scalar_state(A.p)))
     return st, True
+
+
+def scalar_state(p):
+    """Small scalar attributes of the parser, its lexer and its LALR driver (bracket depth, counters, flags): part of the
+    canonical state so that a history is still extended after a call that only changed those.  Text positions and the
+    text itself are left out (they differ after every call and are C11's business)."""
+    out = []
+    for label, obj in (('p', p), ('lex', p.lex), ('yacc', p.yacc)):
+        for k, v in sorted(vars(obj).items()):
+            if k in ('lexpos', 'lexlen', 'lineno', 'lexdata'):
+                continue
+            if isinstance(v, (bool, int, type(None))):
+                out.append((label, k, v))
+            elif isinstance(v, (list, dict, set, tuple)) and len(v) < 50:
+                out.append((label, k, len(v)))
+    return out
 
 
 def _src(act):
     return repr(act[1])[:22] if len(act) > 1 else ''
 
 
-DEEP_SOURCES = {'{"a": {"b": 1}}', 'map(l, v => v + k)', 'f = v => [v]; f(1)', '[[1], {"c": [2]}]', '1', '\f1', 'x = {"a": {"b": [1]}}; x["a"]'}
+DEEP_SOURCES = {'len([1, 2 3', 'x = 10\ny = 2\nx * y', 'k\n-1', 'k -1', '\n\nx = = 1', 'x = = 1', '1 +', ' 1', '{"a": {"b": 1}}', 'map(l, v => v + k)', 'f = v => [v]; f(1)', '[[1], {"c": [2]}]', '1', '\f1', 'x = {"a": {"b": [1]}}; x["a"]'}
 
 
 def deep_actions():
-    return [a for a in actions() if a[0] in ('mutate-last', 'set-k') or (a[0] == 'eval' and a[1] in DEEP_SOURCES and a[3] in (None, 9))]
+    return [a for a in actions() if a[0] in ('mutate-last', 'set-k', 'eval-ast') or (a[0] == 'eval' and a[1] in DEEP_SOURCES and a[3] in (None, 9))]
+
+
+CORE_SOURCES = {'{"a": {"b": 1}}', 'map(l, v => v + k)', 'len([1, 2 3', 'x = 10\ny = 2\nx * y', '\f1', '1', 'k\n-1', 'k -1'}
+
+
+def core_actions():
+    return [a for a in actions() if a[0] in ('mutate-last', 'set-k') or (a[0] == 'eval-ast' and a[1] == 'fa(10)')
+            or (a[0] == 'eval' and a[1] in CORE_SOURCES and a[2] == 'P' and a[3] is None)]
 
 
 def work(task):
     kind, hists, deep = task
     res = runner.Result()
-    acts = deep_actions() if deep else actions()
+    acts = actions() if not deep else (deep_actions() if deep == 1 else core_actions())
     for hist in hists:
         for a in acts:
             h2 = list(hist) + [a]
@@ -275,7 +312,8 @@ def main(tier, seed, t0):
         for kind in b['KINDS']:
             hs = [h for k, h in frontier if k == kind]
             n = max(1, len(hs) // 24 + 1)
-            tasks += [(kind, hs[i:i + n], depth > b['DEPTH']) for i in range(0, len(hs), n)]
+            level = 0 if depth <= b['DEPTH'] else (1 if depth <= b['DEPTH'] + 1 else 2)
+            tasks += [(kind, hs[i:i + n], level) for i in range(0, len(hs), n)]
         tasks = runner.rotate(tasks, seed)
         r = runner.run_tasks(work, tasks, selftest=(depth == 1))
         new = []
@@ -295,10 +333,12 @@ def main(tier, seed, t0):
         'traces_validated_against_impl': n.get('calls', 0),
         'evaluations': n.get('calls', 0),
         'distinct_nontrivial': len(total.outcomes),
-        'rule': 'BFS to depth %d (then the %d container / lambda / host-mutation actions to depth %d) over %d actions (parse / eval of %d sources incl. near-duplicates ` 1`, `1 `, `\\n1`, `\\f1`, failing, '
-                'literal containers, lambdas; fresh / persistent names; budgets 6/9/14; host deep-mutation of the last result; a host '
-                'rebinding) for cache kinds %s, in lock-step with an uncached parser; states deduplicated on cache contents (keys + tree '
-                'dumps) + persistent names + last result.' % (b['DEPTH'], len(deep_actions()), b['DEEP'], len(actions()), len(SOURCES), b['KINDS']),
+        'rule': ('BFS to depth %d, then one level over the %d container / lambda / host-mutation actions, then the %d core actions to '
+                 'depth %d; %d actions in all (parse / eval of %d sources incl. near-duplicates, failing, literal containers, lambdas, '
+                 'ast_names variants; fresh / persistent names; budgets; host deep-mutation of the last result; a host rebinding) for '
+                 'cache kinds %s, in lock-step with an uncached parser; states deduplicated on cache contents (keys + tree dumps) + '
+                 'persistent names + last result + small scalar parser state.'
+                 % (b['DEPTH'], len(deep_actions()), len(core_actions()), b['DEEP'], len(actions()), len(SOURCES), b['KINDS'])),
         'exhaustive': True,
         'frontier_exhausted': not frontier,
         'max_depth': depth,
